@@ -364,7 +364,12 @@ var ocspSeeds = [][]byte{
 
 func mutate(r *h.Rand, b []byte) []byte {
 	out := append([]byte(nil), b...)
-	switch r.Intn(7) {
+	switch r.Intn(8) {
+	case 7: // insert a character that text parsers treat specially (ASCII and non-ASCII white space, quotes, escapes, format verbs)
+		specials := []string{" ", "\t", "\n", "\r", "\u00a0", "\u0085", "\u2028", "\u3000", "\ufeff", "\x00", "%", "\\", "\"", "'", ".", "=", "{", "[", "//", "/*"}
+		sp := []byte(specials[r.Intn(len(specials))])
+		i := r.Intn(len(out) + 1)
+		out = append(out[:i], append(sp, out[i:]...)...)
 	case 0: // truncate
 		if len(out) > 0 {
 			out = out[:r.Intn(len(out))]
